@@ -20,6 +20,8 @@ ASSUMPTIONS = [
     "byteGetIfCan: requests are whole pages and at most 2^48 bytes (its two call sites pass PgSize * npages)",
     "pgmapFindFree: count < 2^30 and page map <= 2^30 pages (the function indexes with int); the unbounded variant "
     "store.pgmapFindFree_any_count is kept and FAILS for count >= 2^32 (genuine: int truncation of i+count)",
+    "btree.c node steps (split, merge, rotations) at t = 16: a sample of (key count, position) cases, one per job; whole "
+    "insert/delete histories of the free-piece tree and its use by pieceGetMixed/piecePutMixed are NOT decided here (C20 has t = 2 trees of height 2)",
     "sectPrepare: npages <= 32767 (what the short header field pgCount can hold); store.sectPrepare_pgCount_upto_own_assert "
     "is kept and FAILS for 32768 <= npages < 65536, which the function's own assert admits (genuine)",
 ]
@@ -86,4 +88,24 @@ def jobs(tier):
       defs=["-DCANARY_byteGetIfCan"], enforce=["byteGetIfCan/c_byteGetIfCan"])
     J("canary.store.byteGetIfCan_os_unconstrained", "h_byteGetIfCan", ["byteGetIfCan"], ["nbytes", "want_got"],
       kind="canary", defs=["-DCANARY_os_unconstrained"], enforce=["byteGetIfCan/c_byteGetIfCan"])
+    # ---- the free-piece B-tree (btree.c, t = MixedBTreeT = 16): node steps against the in-order-sequence contract.
+    # The harness is C20's (harness/C20/btree_step_h.c, see there); C10 depends on the same unit through
+    # mixedPieces, so the t = 16 cases are obligations of this check too.
+    BCHK = ["--no-standard-checks", "--no-malloc-may-fail", "--pointer-check", "--div-by-zero-check"]
+    SIN = ["x_k", "x_e", "x_b", "x_n", "x_leaf", "y_k", "y_e", "y_b", "y_n", "y_leaf", "z_k", "z_e", "z_b", "z_n", "z_leaf", "n", "i", "zn", "g"]
+    T16 = {"split": [(30, 0, 0), (30, 30, 0), (0, 0, 0), (30, 15, 0), (15, 7, 0)],
+           "unsplit": [(31, 0, 0), (31, 30, 0), (1, 0, 0), (31, 15, 0)],
+           "rotdown": [(0, 0, 16), (0, 30, 16), (0, 0, 31), (0, 30, 31), (0, 15, 20)],
+           "rotup": [(0, 0, 16), (0, 30, 16), (0, 0, 31), (0, 30, 31), (0, 15, 20)]}
+    FN = {"split": "btreeSplitChild", "unsplit": "btreeUnsplitChild", "rotdown": "btreeRotateDown", "rotup": "btreeRotateUp"}
+    for nm in ("split", "unsplit", "rotdown", "rotup"):
+        for (cn, ci, cz) in (T16[nm] if tier == "thorough" else T16[nm][:2]):
+            js.append({"name": "btree.step.%s.t16.n%d_i%d_zn%d" % (nm, cn, ci, cz), "src": "../C20/btree_step_h.c", "entry": "h_bt_" + nm,
+                       "functions": [FN[nm]], "inputs": SIN, "cls": "B", "kind": "obligation", "native": True, "checks": BCHK,
+                       "bound": "t = 16, ONE case: x has %s keys, position %d, donor sibling has %s keys; any keys/entries/subtrees" % (cn or "any number of", ci, cz or "-"),
+                       "defs": ["-DBT_T=16", "-DBT_ONLY_N=%d" % cn, "-DBT_ONLY_I=%d" % ci, "-DBT_ONLY_ZN=%d" % cz],
+                       "cbmc": ["--unwind", "35", "--unwinding-assertions"], "timeout": 900})
+    js.append({"name": "canary.btree.step.unsplit", "src": "../C20/btree_step_h.c", "entry": "h_bt_unsplit", "functions": [], "inputs": ["i", "g"],
+               "cls": "B", "kind": "canary", "checks": BCHK, "defs": ["-DBT_T=2", "-DCANARY_bt_unsplit"],
+               "cbmc": ["--unwind", "16", "--unwinding-assertions"], "timeout": 600})
     return js
